@@ -11,6 +11,7 @@ VF_CM_MD(2, uint32_t, 4);
 VF_CM_STATIC("comp,u32,e8,er4", uint32_t, CompressedPGMIndex<uint32_t, 8, 4>);
 VF_CM_STATIC("comp,u64,e2,er0", uint64_t, CompressedPGMIndex<uint64_t, 2, 0>);
 VF_CM_CHAIN("comp,u64,e1,er4", uint64_t, CompressedPGMIndex<uint64_t, 1, 4>);
+VF_CM_MULT("comp,u64,e1,er4", uint64_t, CompressedPGMIndex<uint64_t, 1, 4>);
 VF_CM_STATIC("comp,u32,e4,er256", uint32_t, CompressedPGMIndex<uint32_t, 4, 256>);
 #elif VF_GROUP == 2
 VF_CM_STATIC("bucket,u32,e4,top128,bits32", uint32_t, BucketingPGMIndex<uint32_t, 4, 128, 32>);
@@ -18,6 +19,7 @@ VF_CM_STATIC("bucket,u64,e8,top100,bits0", uint64_t, BucketingPGMIndex<uint64_t,
 VF_CM_STATIC("ef,u32,e8", uint32_t, EliasFanoPGMIndex<uint32_t, 8>);
 VF_CM_STATIC("ef,u64,e2", uint64_t, EliasFanoPGMIndex<uint64_t, 2>);
 VF_CM_CHAIN("ef,u64,e1", uint64_t, EliasFanoPGMIndex<uint64_t, 1>);
+VF_CM_MULT("ef,u64,e1", uint64_t, EliasFanoPGMIndex<uint64_t, 1>);
 VF_CM_CHAIN("bucket,u64,e2,top550,bits0", uint64_t, BucketingPGMIndex<uint64_t, 2, 550, 0>);
 VF_CM_MD(3, uint64_t, 16);
 #else
